@@ -28,6 +28,8 @@ UNIVERSE = 28
 def setup_symbolic():
     shims.install([ap, common], ["range", "min", "max", "int"])
     shims.install([mr], ["min", "max"])
+    from props import genic
+    genic.setup_symbolic()
 
 
 class Al:
@@ -170,6 +172,13 @@ def instances(tier, seed):
     for nb in ((1, 2, 3, 4, 5, 6, 7) if q else (1, 2, 3, 4, 5, 6, 7, 8, 9)):
         out.append(Instance("tile[bins=%d]" % nb, h_split_regions_tile(nb), [A + "AlignmentCollector.split_coverage_regions"],
                             "%d coverage bins with symbolic coverage, symbolic region ends" % nb, weight=3 ** nb, budget_s=900))
+    # the per-read filters: one BAM record through the real process_genic yields a record exactly when the documented filters pass
+    from props import genic
+    for locus, tid, n in ([("skip", "T1", 3), ("antisense", "T7", 3)] if q else [(l, m[0], len(m[3])) for l in sorted(genic.LOCI) for m in genic.LOCI[l] if len(m[3]) > 1]):
+        out.append(Instance("genic_record[%s,%s]" % (locus, tid), genic.h_genic(locus, tid, 0, n - 1),
+                            [A + "AlignmentCollector.process_genic", "src.alignment_info:AlignmentInfo.__init__", "src.common:get_read_blocks"],
+                            "one BAM record following %s of locus %s (symbolic ends, flags, MAPQ, --no_secondary, --min_mapq) through process_genic" % (tid, locus),
+                            weight=300, budget_s=1200))
     # a read processed in several sub-regions yields identical records: exactly one survives (shared with C08)
     from props import c08
     for n in ((3,) if q else (3, 4)):
